@@ -147,9 +147,28 @@ pub fn main(ctx: &Ctx) -> i32 {
     fin.rule.push_str(" BLACK-BOX TIER (labels H_*): generated histories (4..22 ops) against a real single node through POST/DELETE/GET /nacos/v1/ns/instance, /nacos/v1/ns/instance/list (healthyOnly false and true) and gRPC InstanceRequest / ServiceQueryRequest over up to two held bi-stream connections: HTTP addresses written over HTTP (enabled true/false, weight 2..4), connection addresses registered / deregistered by one connection at a time, connection close; after every op (state given up to 2 s to show) both lists of both services == the registered and enabled instances of the reference map, no disabled / unhealthy / persistent / duplicate host in any answer; at the end the detail view of every registered instance (also disabled ones) carries the registered enabled flag and weight; non-trivial there = a connection closed while holding registrations, or a disabled instance present.");
     let failh = match crate::c12h::start_node(&work, ctx.seed) {
         Ok((mut cluster, target)) => {
+            // saved replays of this tier first (regression)
+            let mut saved_fail = None;
+            for p in saved_replays(id) {
+                if read_replay::<Case>(&p).is_ok() {
+                    continue;
+                }
+                if let Ok(hc) = read_replay::<crate::c12h::RCase>(&p) {
+                    let rep = crate::c12h::run_case(&hc, &target);
+                    stats.label("saved_replay_rerun");
+                    stats.record(&hc, &rep);
+                    if let Verdict::Violation(m) = &rep.verdict {
+                        saved_fail = Some(Failure { case: hc, message: format!("regression replay {}: {}", p.display(), m) });
+                        break;
+                    }
+                }
+            }
             let n_h = ctx.tier.pick(240u32, 4_000u32);
             let t2 = target.clone();
-            let f = run_cases(ctx, &stats, crate::c12h::case_strategy as fn() -> _, n_h, 8, 300, move |c| crate::c12h::run_case(c, &t2));
+            let f = match saved_fail {
+                Some(f) => Some(f),
+                None => run_cases(ctx, &stats, crate::c12h::case_strategy as fn() -> _, n_h, 8, 300, move |c| crate::c12h::run_case(c, &t2)),
+            };
             cluster.cleanup();
             f
         }
